@@ -220,12 +220,31 @@ impl<W: SimWord> Clone for AnyWordRead<W> {
             RdInner::Faulty(r) => RdInner::Faulty(r.clone()),
             _ => panic!("harness error: clone of a non-clonable backend"),
         };
+        // the clone gets its own counters (a copy), published through a
+        // thread-local so that the harness can follow the copy it continues with
+        let st = {
+            let s = self.stats.borrow();
+            Rc::new(RefCell::new(RdStats {
+                words_read: s.words_read,
+                read_errs: s.read_errs,
+                seeks: s.seeks,
+            }))
+        };
+        LAST_CLONED.with(|l| *l.borrow_mut() = Some(st.clone()));
         AnyWordRead {
             inner,
             cursor: self.cursor,
-            stats: self.stats.clone(),
+            stats: st,
         }
     }
+}
+
+thread_local! {
+    static LAST_CLONED: RefCell<Option<Rc<RefCell<RdStats>>>> = RefCell::new(None);
+}
+
+pub fn take_last_cloned_stats() -> Option<Rc<RefCell<RdStats>>> {
+    LAST_CLONED.with(|l| l.borrow_mut().take())
 }
 
 impl<W: SimWord> WordRead for AnyWordRead<W> {
